@@ -201,6 +201,14 @@ protected:
   void discretizeEqualProportions();
   void discretizeEqualIntervals();
 
+  /**
+   * @brief For compound distributions, after a copy: wherever a parameter of the source
+   * shared its constraint object with the same-named parameter of the source's nested
+   * distribution, the parameter of this object shares the constraint object of the parameter
+   * of its own (copied) nested distribution.
+   */
+  void shareNestedConstraints_(const DiscreteDistributionInterface& sourceNested, const DiscreteDistributionInterface& nested);
+
 private:
   /**
    * @brief After a copy: the parameters that were constrained by the domain object of the
